@@ -391,6 +391,71 @@ def unit_util_bounded():
     return Unit('util/normalize-contracts', run, funcs=['odl.util.normalize:normalized_scalar_param_list'], kind='B')
 
 
+def resize_nd_case_check(case):
+    """native check of one n-d resize case; returns None or the description of the failure"""
+    import os
+    import sys
+    root = os.environ.get('PYVC_REPO', '/repo')
+    if root not in sys.path:
+        sys.path.insert(0, root)
+    import warnings
+    warnings.filterwarnings('ignore')
+    import numpy as np
+    import odl
+    from odl.util.numerics import resize_array
+    if case['kind'] == 'transpose':
+        shp, new, off, mode = tuple(case['shape']), tuple(case['newshape']), tuple(case['offset']), case['pad_mode']
+        n, m = int(np.prod(shp)), int(np.prod(new))
+        A = np.empty((m, n))
+        for j in range(n):
+            e = np.zeros(n)
+            e[j] = 1.0
+            A[:, j] = resize_array(e.reshape(shp), new, offset=off, pad_mode=mode, pad_const=0, direction='forward').ravel()
+        B = np.empty((n, m))
+        for i in range(m):
+            e = np.zeros(m)
+            e[i] = 1.0
+            B[:, i] = resize_array(e.reshape(new), shp, offset=off, pad_mode=mode, pad_const=0, direction='adjoint').ravel()
+        if not np.allclose(B, A.T):
+            i, j = np.argwhere(~np.isclose(B, A.T))[0]
+            return 'resize_array %r -> %r, offset %r, %s: adjoint matrix is not the transpose of the forward matrix (entry (%d, %d): %r vs %r; %d entries differ)' % (
+                shp, new, off, mode, i, j, B[i, j], A.T[i, j], int(np.sum(~np.isclose(B, A.T))))
+        return None
+    # pad constant of a ResizingOperator whose range has another dtype
+    dom_dt, ran_dt, c = case['dom_dtype'], case['ran_dtype'], case['pad_const']
+    X = odl.uniform_discr(0, 4, 4, dtype=dom_dt)
+    op = odl.ResizingOperator(X, ran_shp=(6,), pad_const=c, discr_kwargs={'dtype': ran_dt})
+    want = np.array(c, dtype=ran_dt)
+    if op.pad_const.dtype != np.dtype(ran_dt) or op.pad_const != want:
+        return 'ResizingOperator(%s -> %s, pad_const=%r): stored constant %r (%s), expected %r (%s)' % (dom_dt, ran_dt, c, op.pad_const, op.pad_const.dtype, want, want.dtype)
+    y = op(X.one()).asarray()
+    if y[0] != want or y[-1] != want:
+        return 'ResizingOperator(%s -> %s, pad_const=%r): padded values %r, %r, expected %r' % (dom_dt, ran_dt, c, y[0], y[-1], want)
+    if op.is_linear != (want == 0):
+        return 'ResizingOperator(%s -> %s, pad_const=%r): is_linear = %r' % (dom_dt, ran_dt, c, op.is_linear)
+    return None
+
+
+def unit_resize_nd_bounded():
+    """BOUNDED (never counted as proved): resize_array on arrays with 3 and 4 axes (the deductive units are 1-d / 2-d): for all pad modes and grow / shrink mixes the adjoint
+    matrix assembled from every basis vector is the transpose of the forward matrix; ResizingOperator stores its padding constant in the dtype of the RANGE."""
+    def run(ctx):
+        cases = []
+        for mode in ('constant', 'periodic', 'symmetric', 'order0', 'order1'):
+            for shp, new, off in (((3, 4, 3), (5, 6, 5), (1, 1, 1)), ((3, 4, 3), (5, 2, 6), (1, 1, 2)), ((2, 3, 3, 2), (3, 5, 4, 4), (0, 1, 1, 1)), ((3, 3, 4), (4, 3, 6), (1, 0, 1)), ((4, 4, 4), (3, 6, 2), (1, 1, 1))):
+                cases.append({'kind': 'transpose', 'shape': list(shp), 'newshape': list(new), 'offset': list(off), 'pad_mode': mode})
+        for dom_dt, ran_dt, c in (('float32', 'float64', 0.1), ('float64', 'float64', 0.1), ('int64', 'float64', 0.5), ('int64', 'float64', -2.75), ('float32', 'float64', 0.0), ('float64', 'float32', 0.1)):
+            cases.append({'kind': 'pad_const', 'dom_dtype': dom_dt, 'ran_dtype': ran_dt, 'pad_const': c})
+        for case in cases:
+            try:
+                bad = resize_nd_case_check(case)
+            except Exception as e:
+                bad = 'raised %s: %s' % (type(e).__name__, e)
+            ctx.bounded('n-d resize: adjoint == transpose on every basis vector / pad constant in the dtype of the range', not bad, case, detail=bad)
+    return Unit('resize-nd/native', run, funcs=['odl.util.numerics:resize_array', 'odl.util.numerics:_apply_padding', 'odl.discr.discr_ops:ResizingOperator.__init__'], kind='B',
+                bounded_in='5 shape pairs with 3-4 axes x 5 pad modes (every basis vector), 6 dtype / constant combinations')
+
+
 def unit_canary():
     """must-fail: symmetric padding claimed to repeat the edge sample"""
     def run(ctx):
@@ -676,6 +741,7 @@ def units(tier, seed):
         us.append(unit_crop(mode))
     us.append(unit_errors())
     us.append(unit_util_bounded())
+    us.append(unit_resize_nd_bounded())
     us.append(unit_canary())
     return us
 
@@ -734,6 +800,13 @@ def replay_discr(ob):
 
 
 def replay(ob):
+    if ob['unit'].startswith('resize-nd/'):
+        case = ob.get('model') or (ob.get('replay') or {}).get('case')
+        try:
+            bad = resize_nd_case_check(case)
+        except Exception as e:
+            bad = 'raised %s: %s' % (type(e).__name__, e)
+        return {'reproduced': bool(bad), 'detail': bad or 'holds natively', 'input': case}
     if ob['unit'].startswith('resize_discr/') or ob['unit'].startswith('resizing_init/'):
         return replay_discr(ob)
     from contracts import replay_resize
